@@ -29,6 +29,7 @@ pub struct Recorder {
     resized: bool,
     abandoned: bool,
     usedrt: bool,
+    timedout: bool,
     /// per task: object the current call chain works on
     inhand: Vec<u32>,
     close_ret: bool,
@@ -62,6 +63,7 @@ impl Recorder {
             resized: false,
             abandoned: false,
             usedrt: false,
+            timedout: false,
             inhand: vec![],
             close_ret: false,
             op: vec![],
@@ -87,6 +89,7 @@ impl Recorder {
         self.resized = false;
         self.abandoned = false;
         self.usedrt = false;
+        self.timedout = false;
         self.close_ret = false;
         self.inhand = vec![0; n];
         self.op = vec!["none"; n];
@@ -148,7 +151,7 @@ impl Recorder {
             "run": self.run, "i": self.i, "k": kind,
             "task": t.map(|t| w.cfg.tasks[t].clone()).unwrap_or_else(|| "-".into()),
             "act": "-", "done": false, "op": "none", "result": "-", "robj": 0, "arg": 0,
-            "max": self.max, "resized": self.resized, "abandoned": self.abandoned, "usedrt": self.usedrt,
+            "max": self.max, "resized": self.resized, "abandoned": self.abandoned, "usedrt": self.usedrt, "timedout": self.timedout, "pendwait": false,
             "live": alive.len(), "exist": exist, "creating": truth.creating, "out": out,
             "idle": idle, "idleids": idleids,
             "ingets": ingets, "blocked": blocked,
@@ -264,6 +267,7 @@ impl Recorder {
         e["op"] = json!(self.op[t]);
         e["arg"] = json!(self.arg[t]);
         e["mode"] = json!(self.mode[t]);
+        e["pendwait"] = json!(matches!(w.ts[t], TState::Pending { gate: None }));
         // injected failures
         let failed_call = |b: &TState| -> Option<(CallKind, u32)> {
             match b {
@@ -276,6 +280,22 @@ impl Recorder {
                 let out = st.x.first().and_then(|v| v.as_str()).unwrap_or("ok");
                 if out == "panic" {
                     self.abandoned = true;
+                }
+                if out == "susp" && w.cfg.has_runtime {
+                    if let Some(TState::AtCall { kind, .. }) = before {
+                        if *kind == CallKind::Create && w.cfg.create_to == "zero" {
+                            self.cause[t] = "create_timeout";
+                            self.timedout = true;
+                        }
+                        if *kind == CallKind::Recycle && w.cfg.recycle_to == "zero" {
+                            self.timedout = true;
+                            self.chain[t].clear();
+                            let o = self.inhand[t];
+                            if o > 0 {
+                                self.rejected.insert(o);
+                            }
+                        }
+                    }
                 }
                 let at = match before {
                     Some(TState::AtCall { kind, idx, obj, .. }) => Some((*kind, *idx, *obj)),
@@ -312,6 +332,7 @@ impl Recorder {
                 }
             }
             "Expire" => {
+                self.timedout = true;
                 if let Some(TState::Pending { gate: Some((CallKind::Create, _)) }) = before {
                     self.cause[t] = "create_timeout";
                 }
@@ -408,7 +429,8 @@ impl Recorder {
                 _ => {}
             }
             if self.op[t] == "get" {
-                if let (Some(b), true) = (self.solo[t], matches!(r, OpResult::Cancelled | OpResult::Panicked(_))) {
+                let norc = matches!(&r, OpResult::GetErr(v) if v == "no_runtime");
+                if let (Some(b), true) = (self.solo[t], norc || matches!(r, OpResult::Cancelled | OpResult::Panicked(_))) {
                     e["solo"] = json!(true);
                     e["b_max"] = json!(b.0);
                     e["b_size"] = json!(b.1);
